@@ -358,7 +358,7 @@ def handshake_in_progress(r, s, step):
         acc = any(o[0] == 'wsaccept' and o[1] == c for os in r.outs[:step + 1] for o in os)
         if not acc:
             continue
-        closed = any(op[0] == 'wsclose' and op[1] == c for op in r.log[:step + 1])
+        closed = any(op[0] in ('wsclose', 'cancel') and op[1] == c for op in r.log[:step + 1])      # closed by the client, or its task cancelled
         fr = conn_frames(r, c, step)
         if closed:
             continue
